@@ -13,6 +13,9 @@ Sections
            Coq: normal equations / orthogonality, optimality against perturbations,
            reparametrisation, voxel order / grouping, rescaling, degenerate whiteners,
            engine agreement (incl. labs kalman from the installed module), labs axis handling
+  gls      GLSModel with correlated covariances (exactly factored Sigma^-1 = L L' with dyadic L, Toeplitz rho^|i-j|, A A' + I):
+           whitener is a factor of Sigma^-1 and equals L', generalised normal equations, generalised RSS, optimality,
+           closed form, exact fit whitened with L' evaluated in Coq
   pos_recipr matrices.pos_recipr over the whole float range: translated threshold (Generated/PosRecipr.v),
            exact correspondence on +-2^k (k -1000..1000) and zeros, decimal magnitudes 1e-300..1e290
   stat_scale t / F / t() statistics of models OLS/AR/WLS, fMRI GLM and labs glm contrasts on data scaled by
@@ -597,6 +600,121 @@ def glm_ar1_section(ck, cx):
             ck.sample({"X": X.tolist(), "Y": Y.tolist(), "steps": steps, "labels_": labels.tolist(), "get_beta": beta.tolist()})
     ck.section("glm_ar1", cases=N, cases_with_shared_and_distinct_labels=multi)
 
+# ---------------------------------------------------------------- generalised least squares with correlated covariances
+def _frac_inv_lower(L):
+    """exact inverse of a lower-triangular matrix with non-zero diagonal (Fractions)"""
+    n = len(L)
+    inv = [[Fraction(0)] * n for _ in range(n)]
+    for j in range(n):
+        for i in range(j, n):
+            s_ = (Fraction(1) if i == j else Fraction(0)) - sum(L[i][k] * inv[k][j] for k in range(j, i))
+            inv[i][j] = s_ / L[i][i]
+    return inv
+
+
+def rand_cov(rng, n, i):
+    """covariance classes.  Returns (class, sigma float array, Sinv float array, exact lower Cholesky factor L of Sinv or None).
+    'factored*': Sinv = L L' with L = (unit lower triangular, entries -1/0/1) . diag(2^k), so sigma, Sinv and L are exact dyadic
+    numbers and L (positive diagonal) is THE Cholesky factor; 'toeplitz': rho^|i-j|; 'spd': A A' + I, A small integers."""
+    cls = ("factored-bidiagonal", "factored-dense", "toeplitz", "spd", "diagonal")[i % 5]
+    if cls.startswith("factored") or cls == "diagonal":
+        L0 = np.eye(n, dtype=np.int64)
+        if cls == "factored-bidiagonal":
+            for k in range(1, n):
+                L0[k, k - 1] = int(rng.choice([-1, 1, 1, 0]))
+            if not np.any(L0 - np.eye(n, dtype=np.int64)):
+                L0[1, 0] = 1
+        elif cls == "factored-dense":
+            for _ in range(int(rng.integers(1, n + 2))):
+                a, b = sorted(int(v) for v in rng.integers(0, n, 2))
+                if a != b:
+                    L0[b, a] = int(rng.choice([-1, 1]))
+            if not np.any(L0 - np.eye(n, dtype=np.int64)):
+                L0[n - 1, 0] = 1
+        d = [Fraction(2) ** int(k) for k in rng.integers(-1, 2, n)]
+        L = [[Fraction(int(L0[r, c])) * d[c] for c in range(n)] for r in range(n)]
+        Li = _frac_inv_lower(L)
+        sig = [[sum(Li[k][r] * Li[k][c] for k in range(n)) for c in range(n)] for r in range(n)]
+        Sinv = [[sum(L[r][k] * L[c][k] for k in range(n)) for c in range(n)] for r in range(n)]
+        f = lambda M: np.array([[float(v) for v in row] for row in M])
+        return cls, f(sig), f(Sinv), f(L)
+    if cls == "toeplitz":
+        rho = float(Fraction(int(rng.choice([-3, -2, -1, 1, 2, 3, 5])), 8))
+        sig = rho ** np.abs(np.subtract.outer(np.arange(n), np.arange(n)))
+        return cls, sig, np.linalg.inv(sig), None
+    A = rng.integers(-2, 3, (n, n)).astype(float)
+    sig = A @ A.T + np.eye(n)
+    return cls, sig, np.linalg.inv(sig), None
+
+
+def gls_section(ck, cx):
+    """GLSModel for correlated covariances: the whitener is a factor of Sigma^-1, the fit solves the generalised
+    normal equations / minimises the generalised RSS, and equals the exact fit whitened with the exact Cholesky factor"""
+    from nipy.algorithms.statistics.models.regression import GLSModel
+    rng = ck.rng("gls")
+    N = ck.n(40, 300)
+    TOL6 = "(Qmake 1 1000000)"
+    for i in range(N):
+        n = int(rng.integers(3, 11))
+        p = int(rng.integers(1, min(n - 1, 4) + 1))
+        V = int(rng.integers(1, 5))
+        X = rand_design(rng, n, p)
+        Y = rand_data(rng, n, V, X)
+        Xf, Yf = X.astype(float), Y.astype(float)
+        cls, sig, Sinv, L = rand_cov(rng, n, i)
+        feat = "diagonal" if cls == "diagonal" else "correlated"
+        rep = {"X": X.tolist(), "Y": Y.tolist(), "sigma": sig.tolist(), "covariance_class": cls}
+        ck.count(("gls", X.tobytes(), Y.tobytes(), sig.tobytes()), nontrivial=feat == "correlated", bucket="gls:%s" % cls)
+        try:
+            gm = GLSModel(Xf, sig)
+            r = gm.fit(Yf)
+        except Exception as e:  # noqa
+            ck.fail("gls/raises/%s" % feat, "GLSModel raised %s: %s" % (type(e).__name__, e), rep)
+            continue
+        Cw = np.asarray(gm.cholsigmainv)
+        sc = 1 + np.abs(Sinv).max()
+        # oracle contract + nipy's transposition: the whitener W must satisfy W'W = Sigma^-1
+        if np.abs(Cw.T @ Cw - Sinv).max() > 1e-8 * sc * np.linalg.cond(sig):
+            ck.fail("gls/whitener-is-not-a-factor-of-inverse-covariance/%s" % feat,
+                    "cholsigmainv' cholsigmainv != pinv(sigma) (max diff %.3g)" % np.abs(Cw.T @ Cw - Sinv).max(), dict(rep, cholsigmainv=Cw.tolist()))
+        if L is not None and np.abs(Cw - L.T).max() > 1e-8 * sc * np.linalg.cond(sig):
+            ck.fail("gls/whitener-is-not-transposed-lower-cholesky-factor/%s" % feat,
+                    "cholsigmainv differs from L' (L the exact lower Cholesky factor of Sigma^-1)", dict(rep, cholsigmainv=Cw.tolist(), L=L.tolist()))
+        theta = np.asarray(r.theta)
+        if theta.shape != (p, V) or r.df_resid != n - p:
+            ck.fail("gls/shape-or-dof", "theta shape %s / df_resid %r" % (theta.shape, r.df_resid), rep)
+            continue
+        res = Yf - Xf @ theta
+        scale = (1 + np.abs(Xf).max()) * (1 + np.abs(Yf).max()) * n * sc
+        if np.abs(Xf.T @ Sinv @ res).max() > 1e-7 * scale:
+            ck.fail("gls/generalised-normal-equations/%s" % feat,
+                    "X' Sigma^-1 (Y - X theta) != 0 (max %.3g)" % np.abs(Xf.T @ Sinv @ res).max(), dict(rep, theta=theta.tolist()))
+        grss = np.einsum("iv,ij,jv->v", res, Sinv, res)
+        if not close(np.asarray(r.dispersion) * (n - p), grss, 1e-7):
+            ck.fail("gls/dispersion-is-not-generalised-rss-over-n-minus-p/%s" % feat,
+                    "dispersion*(n-p) = %s, r' Sigma^-1 r = %s" % ((np.asarray(r.dispersion) * (n - p)).tolist(), grss.tolist()), rep)
+        for _ in range(3):
+            d = rng.integers(-2, 3, (p, V)) * float(rng.choice([1.0, 0.25, 1e-2]))
+            res2 = Yf - Xf @ (theta + d)
+            if np.any(np.einsum("iv,ij,jv->v", res2, Sinv, res2) < grss * (1 - 1e-9) - 1e-9):
+                ck.fail("gls/not-optimal/%s" % feat, "a perturbed coefficient vector has a smaller generalised RSS", dict(rep, delta=d.tolist()))
+        # independent closed form (X' S X)^-1 X' S Y
+        bref = np.linalg.solve(Xf.T @ Sinv @ Xf, Xf.T @ Sinv @ Yf)
+        if not close(theta, bref, 1e-6):
+            ck.fail("gls/differs-from-closed-form/%s" % feat, "theta differs from (X'S^-1X)^-1 X'S^-1 Y", dict(rep, theta=theta.tolist(), closed_form=bref.tolist()))
+        # model: exact fit of the problem whitened with the exact factor L' (dyadic), evaluated in Coq
+        if L is not None:
+            LT = qm(L.T)
+            cx.term("fit_close %s (q_ref_fit %s %s (q_gls_whiten %s %s %s) (q_gls_whiten %s %s %s)) %s %s" % (
+                TOL6, cnat(p), cnat(V), cnat(p), LT, zm(X), cnat(V), LT, zm(Y), qm(theta.T), qv(r.dispersion)),
+                "model-vs-impl/fit/models.GLSModel/%s" % feat,
+                "GLSModel.fit differs from the exact least-squares fit of the problem whitened with L' (L L' = Sigma^-1)",
+                dict(rep, theta=theta.tolist(), dispersion=np.asarray(r.dispersion).tolist(), L=L.tolist()))
+        if i < 1:
+            ck.sample({"gls": rep, "theta": theta.tolist()})
+    ck.section("gls", cases=N)
+
+
 # ---------------------------------------------------------------- pos_recipr and the statistics formed through it
 def _band(c):
     """structural class of a magnitude"""
@@ -837,6 +955,30 @@ def ridge_exact(X, y, lam):
     return b, rss + lam * sum(v * v for v in b)
 
 
+SERIES_KINDS = ("random", "random", "all-zero", "constant", "in-column-space", "one-nonzero-sample")
+
+
+def series_of_kind(rng, n, X, i):
+    """data classes for one time series: generic, identically zero (background voxel), constant,
+    exactly fitted (zero residual), a single non-zero sample"""
+    kind = SERIES_KINDS[i % len(SERIES_KINDS)] if i < 2 * len(SERIES_KINDS) else str(rng.choice(SERIES_KINDS))
+    if kind == "all-zero":
+        y = np.zeros(n, dtype=np.int64)
+    elif kind == "constant":
+        y = np.full(n, int(rng.integers(-9, 10)) or 3, dtype=np.int64)
+    elif kind == "in-column-space":
+        y = X @ rng.integers(-3, 4, X.shape[1])
+    elif kind == "one-nonzero-sample":
+        y = np.zeros(n, dtype=np.int64)
+        y[int(rng.integers(0, n))] = int(rng.integers(1, 10))
+    else:
+        y = rand_data(rng, n, 1, X)[:, 0]
+    y = np.asarray(y, dtype=np.int64)
+    if not np.any(y):
+        kind = "all-zero"
+    return kind, y
+
+
 def kalman_c_section(ck, cx):
     """drive the CURRENT lib/fff/fff_glm_kalman.c row by row and compare with the batch solutions"""
     lib, C, vec, mat = _kalman_lib(ck)
@@ -849,11 +991,11 @@ def kalman_c_section(ck, cx):
         n = int(rng.integers(3, 13 if not ck.thorough() else 25))
         p = int(rng.integers(1, min(n - 1, 4) + 1))
         X = rand_design(rng, n, p)
-        y = rand_data(rng, n, 1, X)[:, 0]
+        kind, y = series_of_kind(rng, n, X, i)
         Xf = np.ascontiguousarray(X, dtype=float)
         yf = np.ascontiguousarray(y, dtype=float)
-        rep = {"X": X.tolist(), "y": y.tolist()}
-        ck.count(("kalman-c", X.tobytes(), y.tobytes()), bucket="kalman_c:p%d" % p)
+        rep = {"X": X.tolist(), "y": y.tolist(), "series": kind}
+        ck.count(("kalman-c", X.tobytes(), y.tobytes()), bucket="kalman_c:p%d:%s" % (p, kind))
         kf = lib.fff_glm_KF_new(p)
         lib.fff_glm_KF_reset(kf)
         tcheck = int(rng.integers(1, n))
@@ -881,14 +1023,24 @@ def kalman_c_section(ck, cx):
         k = kf.contents
         b_fit = np.array([k.b.contents.data[j] for j in range(p)])
         ssd, s2, dof, s2c, tt = k.ssd, k.s2, k.dof, k.s2_cor, k.t
+        Vb_fit = np.array([k.Vb.contents.data[j] for j in range(p * p)]).reshape(p, p)
         lib.fff_glm_KF_delete(kf)
         if not ok:
             continue
+        # data-independent outputs of the driver (what kalman.pyx returns block-wide from the last series)
+        Vinfo = np.linalg.inv(Xf.T @ Xf + 1e-7 * np.eye(p))
+        if not close(Vb_fit, Vinfo, 1e-5) or not close(Vb_fit, Vb, 1e-9):
+            ck.fail("kalman-c/fit-Vb-not-inverse-information/series-%s" % kind,
+                    "after fff_glm_KF_fit Vb is not (X'X + 1e-7 I)^-1 (data independent): %s" % Vb_fit.tolist(), dict(rep, Vb=Vb_fit.tolist()))
+        cx.term("match q_kf_fit %s kf_init_var %s %s with Some s_ => mclose %s (kVb s_) %s | None => false end" % (
+            cnat(p), zm(X), zv(y), "(Qmake 1 100000)", qm(Vb_fit)),
+            "model-vs-impl/kalman-c-Vb", "Gallina Kalman recursion and fff_glm_KF_fit disagree on Vb",
+            dict(rep, Vb=Vb_fit.tolist()))
         if not np.array_equal(b_fit, b_rows) or ssd != ssd_rows:
             ck.fail("kalman-c/fit-differs-from-row-by-row", "fff_glm_KF_fit and reset + iterate over the rows give different states", rep)
         if dof != n - p or tt != n:
-            ck.fail("kalman-c/dof", "dof %r != n-p = %d or t %r != n" % (dof, n - p, tt), rep)
-        if abs(s2c - (n / dof) * s2) > 1e-12 * (1 + abs(s2c)) or abs(s2 - ssd / n) > 1e-12 * (1 + abs(s2)):
+            ck.fail("kalman-c/dof/series-%s" % kind, "dof %r != n-p = %d or t %r != n" % (dof, n - p, tt), rep)
+        if dof != 0 and (abs(s2c - (n / dof) * s2) > 1e-12 * (1 + abs(s2c)) or abs(s2 - ssd / n) > 1e-12 * (1 + abs(s2))):
             ck.fail("kalman-c/scale-convention", "s2 != ssd/n or s2_cor != (n/dof) s2", dict(rep, s2=s2, s2_cor=s2c, ssd=ssd))
         # batch solutions (exact): the prior-regularised one the filter computes, and plain OLS
         br, pen = ridge_exact(X.tolist(), y.tolist(), LAM)
@@ -938,6 +1090,12 @@ def kalman_c_section(ck, cx):
         #      depend on the voxels fitted before it with the same object (position in the block, order, niter)
         Vn = int(rng.integers(2, 6))
         Yb = np.ascontiguousarray(rand_data(rng, n, Vn, X), dtype=float)
+        bkinds = ["random"] * Vn
+        for _ in range(int(rng.integers(0, 3))):               # special series at any position of the block, incl. first / last
+            pos = int(rng.choice([0, Vn - 1, int(rng.integers(0, Vn))]))
+            bk, col_ = series_of_kind(rng, n, X, 10 ** 6)
+            Yb[:, pos] = col_
+            bkinds[pos] = bk
         niter = int(rng.choice([1, 2, 2, 3, 4]))
 
         def rkf_block(cols, fresh_each=False):
@@ -973,6 +1131,25 @@ def kalman_c_section(ck, cx):
             return np.array(outs)
         order = list(range(Vn))
         perm = [int(v_) for v_ in rng.permutation(Vn)]
+        # standard filter: Vb, dof (and what kalman.ols returns block-wide: those of the LAST series) do not depend on the data
+        kb_ = kf_block(order)
+        for v_ in range(Vn):
+            if not np.allclose(kb_[v_, p:p + p * p], kb_[0, p:p + p * p], rtol=1e-9, atol=1e-12) or kb_[v_, -2] != n - p:
+                ck.fail("kalman-c/kf-data-independent-outputs-depend-on-data/series-%s/position-%s" % (
+                    bkinds[v_], "last" if v_ == Vn - 1 else ("first" if v_ == 0 else "inner")),
+                    "Vb / dof left by fff_glm_KF_fit for voxel %d (%s) differ from those of voxel 0 (%s): dof %r, n-p %d" % (
+                        v_, bkinds[v_], bkinds[0], kb_[v_, -2], n - p), dict(X=X.tolist(), Y=Yb.tolist(), voxel=v_, kinds=bkinds))
+                break
+        try:
+            from nipy.labs.glm import kalman as kmod
+            B_, VB_, S2_, dof_i = kmod.ols(Yb.copy(), Xf, axis=0)
+            if not close(kb_[:, :p].T, B_, 1e-9) or not close(kb_[-1, p:p + p * p].reshape(p, p), VB_, 1e-9) or kb_[-1, -2] != dof_i \
+                    or not close(kb_[:, -3], S2_.ravel(), 1e-9):
+                ck.fail("kalman-c/kf-block-differs-from-installed-module/last-series-%s" % bkinds[-1],
+                        "kalman.ols loop on the current C (one object, VB / dof from the last series) and the installed kalman.ols disagree",
+                        dict(X=X.tolist(), Y=Yb.tolist(), kinds=bkinds))
+        except ImportError:
+            pass
         for nm, blockfn, feat in (("rkf", rkf_block, "niter%s" % ("1" if niter == 1 else ">=2")), ("kf", kf_block, "ols")):
             reused = blockfn(order)
             fresh = blockfn(order, fresh_each=True)
@@ -1019,6 +1196,7 @@ def run(ck):
     kalman_c_section(ck, cx)
     pos_recipr_section(ck, cx)
     stat_scale_section(ck)
+    gls_section(ck, cx)
     cx.flush()
     ck.section("model", coq_terms=len(cx.terms))
     ck.trust.append("oracle contracts (hypotheses of pinv_solves_normal_eq / ols_fit_optimal): numpy.linalg.pinv returns P with "
